@@ -143,16 +143,6 @@ def hasKeywordQubit (i : Instruction) : Bool :=
     | .variable s => isReservedWord s.toList
     | _ => false
 
-/-- known finding C02/nested-definition-in-defcircuit: a DEFCIRCUIT whose body holds an instruction that
-prints on more than one line -/
-def isCircuitWithMultiline : Instruction → Bool
-  | .circuitDefinition _ _ _ body => body.any fun i => (toks stdFmt i).any fun t =>
-      match t with
-      | .newLine => true
-      | .string s => s.contains '\n'
-      | _ => false
-  | _ => false
-
 def kfTags (is : List Instruction) (t : Trip) (out : Sexp) : List String :=
   if specOnOut out then []
   else
@@ -160,8 +150,6 @@ def kfTags (is : List Instruction) (t : Trip) (out : Sexp) : List String :=
     (if (reparseErr || piece out 5 == .list [.atom "texteq", .atom "false"]) && anyInstrs isRawCaptureI t.listing1
       then ["kf:C02/number-then-name-i"] else []) ++
     (if anyInstrs hasKeywordQubit t.listing1 then ["kf:C02/qubit-variable-named-like-keyword"] else []) ++
-    (if anyInstrs isCircuitWithMultiline t.listing1 then
-      ["kf:C02/nested-definition-in-defcircuit"] else []) ++
     (if !reparseErr && piece out 5 == .list [.atom "texteq", .atom "true"] &&
         !(subsetQ (usedQubits is) (usedQubits t.listing1)) then
       ["kf:C02/reparsed-unequal-after-redefined-calibration"] else [])
